@@ -156,8 +156,10 @@ def run_check(prop, tier, stages, rule, level="model_checking", assumptions=None
 # C01
 
 C01_FAMILIES = {
-    "quick": [("arith", 4), ("logic", 4), ("string", 4), ("coll", 4), ("access", 4), ("builtin", 5), ("mixed", 4)],
-    "thorough": [("arith", 5), ("logic", 5), ("string", 5), ("coll", 5), ("access", 5), ("builtin", 6), ("mixed", 5)],
+    "quick": [("arith", 4), ("logic", 4), ("string", 4), ("coll", 4), ("access", 4), ("builtin", 5), ("mixed", 4),
+              ("calls", 5), ("inlit", 6)],
+    "thorough": [("arith", 5), ("logic", 5), ("string", 5), ("coll", 5), ("access", 5), ("builtin", 6), ("mixed", 5),
+                 ("calls", 6), ("inlit", 7)],
 }
 EVAL_ASSUME = ["harness Abs/Concretize projection (harness/val.go) is faithful",
                "TLC evaluates Sem!Eval as written",
@@ -285,7 +287,7 @@ def stages_C05(tier):
                      mc_vm_cfg("oversize", 4 if tier == "quick" else 5, operand_mod=32, emit="ovcases", invariants=("EmitOv",)),
                      "C05OV", modes="struct:noopt,struct:opt,none:noopt"))
     ev = 7 if tier == "quick" else 2
-    for fam, n in [("builtin", 5), ("mixed", 4), ("logic", 4), ("coll", 4)]:
+    for fam, n in [("builtin", 5), ("mixed", 4), ("logic", 4), ("coll", 4), ("calls", 5), ("access", 4)]:
         out.append(trace_stage("trace-%s" % fam, fam, n, ev, max_runs=3000 if tier == "quick" else 20000))
     return out
 
@@ -370,7 +372,7 @@ def stages_C07(tier):
     return out
 
 
-C07_RULE = ("TLC: every history of length <= 3 (thorough: 4) over a pool of 10 (program, environment) items - plain "
+C07_RULE = ("TLC: every history of length <= 3 (thorough: 4) over a pool of 13 (program, environment) items - plain "
             "success, failure inside nested loops, allocating runs whose sum crosses the budget, budget failures, "
             "descending ranges - with FreshEquiv and PrologueResets checked in every state of History.tla; each history "
             "replayed on ONE real vm.VM value: every run must return what the specification assigns to a fresh machine "
@@ -399,11 +401,16 @@ def stages_variants(prop, modes, tier):
 
 
 def stages_C02(tier):
-    return stages_variants("C02", "struct:opt,struct:noopt,none:opt,none:noopt", tier)
+    out = stages_variants("C02", "struct:opt,struct:noopt,none:opt,none:noopt", tier)
+    # the ConstExpr clause: pure functions marked as constant expressions, optimizer on and off
+    n = 5 if tier == "quick" else 6
+    out.append(Stage("cexpr-n%d" % n, "MC_Expr", gen_cfg("cexpr", n), "C02",
+                     modes="struct:opt:const,struct:noopt:const,struct:opt,struct:noopt"))
+    return out
 
 
 def stages_C15(tier):
-    return stages_variants("C15", "struct:noopt,ptr:noopt,map:noopt,none:noopt,eval", tier)
+    return stages_variants("C15", "struct:noopt,ptr:noopt,map:noopt,none:noopt,eval,struct:opt,map:opt", tier)
 
 
 C02_RULE = ("the expressions and environment assignments of the C01 corpora (TLC-enumerated per family up to the node "
@@ -418,7 +425,7 @@ C15_RULE = ("the expressions and environment assignments of the C01 corpora; eac
 
 def check_C02(tier):
     return run_check("C02", tier, stages_C02(tier), C02_RULE,
-                     assumptions=EVAL_ASSUME + ["the ConstExpr clause of the property is not exercised (no ConstExpr option in the modes)"])
+                     assumptions=EVAL_ASSUME + ["ConstExpr is exercised for the pure functions AnyId, Var, Cat, Id of family 'cexpr' only"])
 
 
 def check_C15(tier):
@@ -526,7 +533,7 @@ def check_C10(tier):
 # C17
 
 def stages_C17(tier):
-    modes = "struct:noopt,struct:opt,ptr:opt"
+    modes = "struct:noopt,struct:opt,ptr:opt,altmap:opt,altmap:noopt"
     n = 5 if tier == "quick" else 6
     return [Stage("ovl-n%d" % n, "MC_Expr", gen_cfg("ovl", n, emit="ovl", invariants=("EmitOvl", "OvlTyped")), "C17",
                   modes=modes, timeout=2400),
@@ -610,9 +617,54 @@ def check_C11(tier):
                                   "TLC evaluates Grammar!RefParse as written"])
 
 
-CHECKS = {"C11": check_C11, "C17": check_C17, "C09": check_C09, "C10": check_C10, "C01": check_C01, "C02": check_C02, "C05": check_C05, "C06": check_C06, "C07": check_C07,
+# ---------------------------------------------------------------------------
+# C12: the lexer machine (Lexer.tla) and the lexical reference (Lexical.tla)
+
+LEX_INV = ("LocInv", "TokenLocInv", "ValueInv", "OrderInv", "Agrees", "QuoteInverts", "EmitCase")
+
+
+def lex_cfg(family, maxlen):
+    return vf.cfg_text({"LexFamily": family, "LexMaxLen": maxlen, "LexEmit": "cases"}, invariants=LEX_INV)
+
+
+C12_FAMILIES = {"quick": [("strlit", 2), ("numlit", 4), ("layout", 1), ("all-num", 3), ("all-str", 3), ("all-op", 3),
+                          ("all-word", 4), ("all-misc", 3)],
+                "thorough": [("strlit", 3), ("numlit", 5), ("layout", 1), ("all-num", 4), ("all-str", 4), ("all-op", 4),
+                             ("all-word", 5), ("all-misc", 4)]}
+
+
+def stages_C12(tier):
+    return [Stage("lex-%s-%d" % (fam, n), "MC_Lex", lex_cfg(fam, n), "C12", workers=1, timeout=3600)
+            for fam, n in C12_FAMILIES[tier]]
+
+
+C12_RULE = ("TLC runs the lexer machine Lexer.tla (one step per state function of state.go, built from next/backup/peek/"
+            "accept/acceptRun/acceptWord/emit) on every text of eight families and checks in every state LocInv (the "
+            "tracked location is the position of the current rune computed from the text alone), TokenLocInv (a token's "
+            "location is the position of its first rune), ValueInv, OrderInv, and for the structured families Agrees "
+            "(the machine yields what the lexical reference assigns) and QuoteInverts. Families: strlit = Quote(v, q, "
+            "style) for every value up to the length bound over 16 characters (quotes, backslash, LF, CR, TAB, BEL, NUL, "
+            "DEL, 2-, 3- and 4-byte runes) x both quotes x 8 escape styles; numlit = every decimal spelling with "
+            "separators, every 0x/0X hexadecimal spelling over {1,e,E,f,A,b,0,_}, every float form d.d .d d. with "
+            "exponents; layout = every ordered pair of 45 tokens of all kinds x 8 separators (line breaks, tabs, CR LF, "
+            "none where safe) x 2 prefixes; all-* = every text up to the bound over five class alphabets. The real "
+            "lexer.Lex / parser.Parse must return the specified token kinds, values (byte-exact), positions and literal "
+            "values (integers by math/big from the canonical digits, floats as the float64 nearest to mantissa x "
+            "10^exponent); on all-* texts a token location differing from the machine's is a verdict, other differences "
+            "are model drift; non-trivial = a literal, a token pair, or a text of >= 2 characters")
+
+
+def check_C12(tier):
+    return run_check("C12", tier, stages_C12(tier), C12_RULE,
+                     assumptions=["symbolic characters are mapped to bytes by harness/lex.go symBytes",
+                                  "float expectation: big.Rat(mantissa x 10^exp10).Float64() is the nearest float64",
+                                  "the all-* families compare with the machine transcribed from lexer.go/state.go: "
+                                  "only token locations are verdict-bearing there"])
+
+
+CHECKS = {"C12": check_C12, "C11": check_C11, "C17": check_C17, "C09": check_C09, "C10": check_C10, "C01": check_C01, "C02": check_C02, "C05": check_C05, "C06": check_C06, "C07": check_C07,
           "C14": check_C14, "C15": check_C15, "C18": check_C18}
-STAGES = {"C11": stages_C11, "C17": stages_C17, "C09": stages_C09, "C10": stages_C10, "C01": stages_C01, "C02": stages_C02, "C05": stages_C05, "C06": stages_C06, "C07": stages_C07,
+STAGES = {"C12": stages_C12, "C11": stages_C11, "C17": stages_C17, "C09": stages_C09, "C10": stages_C10, "C01": stages_C01, "C02": stages_C02, "C05": stages_C05, "C06": stages_C06, "C07": stages_C07,
           "C14": stages_C14, "C15": stages_C15, "C18": stages_C18}
 
 
